@@ -349,6 +349,37 @@ def c125Table : List CbCall :=
   [⟨t!"Server.handleServerNotification", t!"handler", t!"ServerNotificationHandler", .r, true⟩,
    ⟨t!"toolManager.handleCallTool", t!"registeredTool.Handler", t!"toolHandler", .none, true⟩]
 
+/-! ### locks left held (`extract/lockset.go`, may-hold pass) -/
+
+/-- One way out of a function that takes a registry lock: the `idx`-th return statement in source order, or the end of
+    the body. `left`: a guard mutex of a tracked type possibly still held there — taken on some path to this exit, not
+    released on it, and no unlock deferred on every path to it. `sure = false`: control flow not understood. -/
+structure LockExit where
+  fn : Text
+  idx : Nat
+  left : Held
+  sure : Bool
+  deriving Repr, DecidableEq
+
+/-- Every lock taken is given back on every path: nothing is left held at this exit. A leaked read lock goes unnoticed
+    by readers and wedges the registry at the next registration (a pending writer also stops every later reader). -/
+def exitReleases (e : LockExit) : Bool := e.sure && e.left == .none
+
+/-- Functions that must appear in the exit table (all take a lock): mutators, readers and the request paths. -/
+def expectedLockers : List Text :=
+  [t!"toolManager.registerTool", t!"toolManager.unregisterTools", t!"toolManager.getTool", t!"toolManager.getTools",
+   t!"toolManager.handleCallTool", t!"promptManager.registerPrompt", t!"promptManager.getPrompts",
+   t!"promptManager.handleGetPrompt", t!"resourceManager.registerResource", t!"resourceManager.registerResources",
+   t!"resourceManager.registerTemplate", t!"resourceManager.getResources", t!"resourceManager.handleReadResource",
+   t!"Server.RegisterNotificationHandler", t!"Server.UnregisterNotificationHandler", t!"Server.handleServerNotification"]
+
+/-- The exits of `handleCallTool` as the extractor reports them for seeded change C12-10 (a literal): the early return
+    for "arguments must be an object" leaves the read lock held. -/
+def c1210Table : List LockExit :=
+  [⟨t!"toolManager.handleCallTool", 1, .none, true⟩, ⟨t!"toolManager.handleCallTool", 2, .none, true⟩,
+   ⟨t!"toolManager.handleCallTool", 3, .none, true⟩, ⟨t!"toolManager.handleCallTool", 4, .none, true⟩,
+   ⟨t!"toolManager.handleCallTool", 5, .r, true⟩, ⟨t!"toolManager.handleCallTool", 6, .none, true⟩]
+
 end Mcp.Registry
 
 /-! ## Part 2 — reader/writer-lock traces -/
